@@ -284,6 +284,14 @@ def update_dimensions(rep, prog, fn):
         if e_mx != 0:
             ok = False
             msgs.append("max_%s_ = %s, expected min_%s + nb_voxels_%s_*voxel_size_" % (a, clean(mx), a, a))
+    # every call must leave every voxel empty: unconditional clear (or whole-container assignment) before the resize
+    fi = prog.index(fn)
+    clears = [n for n in walk(fn["body"]) if n.get("k") == "CXXMemberCallExpr" and n.get("callee", "").split("::")[-1] in ("clear", "assign") and render(call_obj(n)).endswith("voxel_lst_")]
+    uncond = [c for c in clears if fi.enclosing(c, ("IfStmt", "ForStmt", "WhileStmt", "CXXForRangeStmt", "SwitchStmt", "ConditionalOperator")) is None]
+    early = [r for r in walk(fn["body"]) if r.get("k") == "ReturnStmt" and uncond and fi.order[id(r)] < fi.order[id(uncond[0])]]
+    if not uncond or early:
+        ok = False
+        msgs.append("the stored objects are not discarded on every call (voxel_lst_.clear() must run unconditionally before the storage is resized): objects of the previous grid survive a re-dimensioning and are returned again / dangle")
     resize = [n for n in walk(fn["body"]) if n.get("k") == "CXXMemberCallExpr" and n.get("callee", "").endswith("::resize")]
     if len(resize) != 1:
         ok = False
@@ -302,6 +310,14 @@ def update_dimensions(rep, prog, fn):
         rep.ok("C20.update-dimensions", prog, fn, None, "counts = ceil((max+delta-min)/size), origin = min-delta, extent = min + n*size per axis; storage nx*ny*nz")
     else:
         rep.violation("C20.update-dimensions", prog, fn, None, "update_dimensions is not axis-consistent: " + msgs[0][:60], "%s::update_dimensions: %s" % (fn.get("cls"), "; ".join(msgs)))
+
+
+def clears_unconditionally(prog, fn):
+    fi = prog.index(fn)
+    clears = [n for n in walk(fn["body"]) if n.get("k") == "CXXMemberCallExpr" and n.get("callee", "").split("::")[-1] in ("clear", "assign") and render(call_obj(n)).endswith("voxel_lst_")]
+    uncond = [c for c in clears if fi.enclosing(c, ("IfStmt", "ForStmt", "WhileStmt", "CXXForRangeStmt", "SwitchStmt", "ConditionalOperator")) is None]
+    early = [r for r in walk(fn["body"]) if r.get("k") == "ReturnStmt" and uncond and fi.order[id(r)] < fi.order[id(uncond[0])]]
+    return bool(uncond) and not early
 
 
 def nbs_pad_syms(nbs):
